@@ -83,6 +83,11 @@ def make_harness(cname: str, cls: type, alts: dict[str, str], family: str):
 
     def harness(I: Interp) -> None:
         args = [cs.make_arg(I, name, alts[name], S) for name, kinds, default in params]
+        if cname == "DefineByMemoryAddressRequest":
+            # the group width must be concrete for the request re-parse; matching does not
+            # depend on it (C01 covers every width)
+            args = [VInt(0x22) if n == "address_and_length_format_identifier" else a
+                    for (n, _, _), a in zip(params, args)]
         try:
             q = I.call(cls, *args)
             qpdu = I.getattr_v(q, "pdu")
